@@ -579,7 +579,9 @@ Definition table_text : list (string * (list arg -> out)) :=
   [ ("lit_parse", fun args => match args with [AS text] => out_res osarr (parse_literal text) | _ => OBad end)
   ; ("lit", fun _ => OZ 0%Z)
   ; ("display", fun args => match args with
-       | [ASA sh es; _; AZ alt] => OS (display (mksa sh es) (alt =? 1)%Z) | _ => OBad end)
+       | [ASA sh es; _; AZ alt] => OS (display (mksa sh es) (alt =? 1)%Z)
+       (* a fourth argument carries the raw values the implementation formats; es are their expected renderings *)
+       | [ASA sh es; _; AZ alt; _] => OS (display (mksa sh es) (alt =? 1)%Z) | _ => OBad end)
   ; ("tuple_text", fun args => match args with
        | [ASA _ es] => OList [OS (show_tuple es); OLArr [1] [parse_tuple (show_tuple es)]] | _ => OBad end)
   ; ("list_text", fun args => match args with
@@ -593,13 +595,16 @@ Definition qmat_of (sh es : list Z) : qmat :=
   | [n] => map (fun i => [QArith_base.inject_Z (nth i es 0%Z)]) (seq 0 n)
   | _ => []
   end.
+Definition qscale (sc : Z) (m : qmat) : qmat := map (map (fun q => qdiv q (QArith_base.inject_Z sc))) m.
+Definition solve_out (s1 s2 : list Z) (a b : qmat) : out :=
+  match solve_checked (nats s1) (nats s2) a b with
+  | Ok x => OList [oq (concat x); OZ (if residual_ok a x b then 1 else 0)%Z; OZ (if pivots_okb a then 1 else 0)%Z]
+  | Err e => OErr e | Panic => OPanic | Fuel => OFuel end.
 Definition table_solve : list (string * (list arg -> out)) :=
   [ ("solve", fun args => match args with
-       | [AA s1 e1; AA s2 e2] =>
-         let a := qmat_of s1 e1 in let b := qmat_of s2 e2 in
-         match solve_checked (nats s1) (nats s2) a b with
-         | Ok x => OList [oq (concat x); OZ (if residual_ok a x b then 1 else 0)%Z; OZ (if pivots_okb a then 1 else 0)%Z]
-         | Err e => OErr e | Panic => OPanic | Fuel => OFuel end
+       | [AA s1 e1; AA s2 e2] => solve_out s1 s2 (qmat_of s1 e1) (qmat_of s2 e2)
+       (* a third argument divides every entry of the matrix (decimal entries) *)
+       | [AA s1 e1; AA s2 e2; AZ sc] => solve_out s1 s2 (qscale sc (qmat_of s1 e1)) (qmat_of s2 e2)
        | _ => OBad end)
   ; ("det", fun args => match args with
        | [AA s1 e1] => oq [det (qmat_of s1 e1)] | _ => OBad end)
